@@ -7,39 +7,53 @@ from . import atomics as A
 
 
 def deep_find(ig, desc, pred, depth=0, seen=None, through_args=False):
-    """search a resolved descriptor, following locals' definitions and the
-    return values of inlined calls, for a sub-descriptor satisfying pred"""
+    """search a resolved descriptor - following locals' definitions, the return
+    values of inlined calls and the object operand of opaque calls - for a
+    sub-descriptor satisfying pred (every intermediate descriptor is offered to pred)"""
     if seen is None:
         seen = set()
-    if not isinstance(desc, dict) or depth > 14:
+    if not isinstance(desc, dict) or depth > 16:
         return None
     if pred(desc):
         return desc
     k = desc.get("k")
-    if k in ("l", "e") and "fr" in desc and not desc.get("lab"):
-        key = (k, desc["fr"], desc.get("id"))
+    if k == "l" and "fr" in desc:
+        key = ("l", desc["fr"], desc.get("id"))
         if key in seen:
             return None
         seen.add(key)
-        for o in ig.origins(desc):
-            if o is not desc:
-                r = deep_find(ig, o, pred, depth + 1, seen, through_args)
+        for n, rhs, how in ig.local_defs(ig.frames[desc["fr"]], desc["id"]):
+            if rhs is not None:
+                r = deep_find(ig, rhs, pred, depth + 1, seen, through_args)
                 if r is not None:
                     return r
-            if isinstance(o, dict) and o.get("k") == "e" and "fr" in o:
-                # opaque event reference: look at the event's own operands
-                n = ig.ev_of(o)
-                if n is not None:
-                    ops = []
-                    th = ig.rthis(n)
-                    if th is not None:
-                        ops.append(th)
-                    if through_args:
-                        ops.extend(ig.resolve(a, n.frame) for a in n.ev.get("args", []))
-                    for x in ops:
-                        r = deep_find(ig, x, pred, depth + 1, seen, through_args)
-                        if r is not None:
-                            return r
+        return None
+    if k == "e" and "fr" in desc and not desc.get("lab"):
+        key = ("e", desc["fr"], desc.get("id"))
+        if key in seen:
+            return None
+        seen.add(key)
+        fr = ig.frames[desc["fr"]]
+        child = fr.children.get(desc["id"])
+        if child is not None:
+            for n in child.ev_node.values():
+                if n.ev["e"] == "ret" and "v" in n.ev:
+                    r = deep_find(ig, ig.resolve(n.ev["v"], child), pred, depth + 1, seen, through_args)
+                    if r is not None:
+                        return r
+            return None
+        n = ig.ev_of(desc)
+        if n is not None:
+            ops = []
+            th = ig.rthis(n)
+            if th is not None:
+                ops.append(th)
+            if through_args:
+                ops.extend(ig.resolve(a, n.frame) for a in n.ev.get("args", []))
+            for x in ops:
+                r = deep_find(ig, x, pred, depth + 1, seen, through_args)
+                if r is not None:
+                    return r
         return None
     for key in ("b", "x", "l", "r", "t", "f", "i", "c"):
         v = desc.get(key)
@@ -287,3 +301,115 @@ def redefined_between(ig, var, a, b):
         if ig.path_exists(a, n, avoiding=[a, b]) and ig.path_exists(n, b, avoiding=[a]):
             return n
     return None
+
+
+# ------------------------------------------------------------------ K8 queue pairing
+_QUEUE_OP = re.compile(r"^babylon::ConcurrentBoundedQueue<.*>::(try_)?(push|pop)(_n)?(_exclusively_until)?$")
+
+
+def queue_sites(fb, owner_re):
+    """call sites of ConcurrentBoundedQueue push/pop families on a queue that is a field of a
+    record matching owner_re; returns list of dicts(fn, ev, side, blocking, flags, field)"""
+    orx = re.compile(owner_re)
+    out = []
+    for fn in fb.find(pred=lambda f: f.has_cfg()):
+        for bid, ev in fn.all_events():
+            if ev["e"] != "call":
+                continue
+            m = _QUEUE_OP.match(ev.get("callee", "") or "")
+            if not m:
+                continue
+            th = strip_cast(ev.get("this"))
+            field = None
+            d = th
+            # queue object: a field (possibly through .local() of a thread-local holder)
+            hops = 0
+            while isinstance(d, dict) and hops < 6:
+                if d.get("k") == "f":
+                    if orx.search(d.get("rec", "") or ""):
+                        field = "%s::%s" % ((d.get("rec") or "").replace("babylon::", ""), d.get("n"))
+                        break
+                    d = d.get("b")
+                elif d.get("k") == "e":
+                    ce = fn.events.get(d["id"])
+                    d = ce.get("this") if ce else None
+                elif d.get("k") in ("u", "cast"):
+                    d = d.get("x")
+                elif d.get("k") == "l":
+                    # reference local: follow its initialiser
+                    init = None
+                    for _, e2 in fn.all_events():
+                        if e2["e"] == "decl" and e2.get("var") == d.get("id"):
+                            init = e2.get("init")
+                    d = init
+                else:
+                    break
+                hops += 1
+            if field is None:
+                continue
+            targs = [t.strip() for t in (ev.get("targs", "") or "").split(",")]
+            bools = []
+            for t in targs:
+                if t in ("true", "false"):
+                    bools.append(t == "true")
+                else:
+                    break
+            side = "push" if "push" in m.group(2) else "pop"
+            is_try = bool(m.group(1))
+            site = {"fn": fn, "ev": ev, "side": side, "try": is_try, "field": field, "name": ev.get("name"),
+                    "line": ev.get("line")}
+            if is_try:
+                if m.group(4):       # try_pop_n_exclusively_until<USE_FUTEX_WAKE>
+                    site.update(concurrent=False, wait=True, wake=bools[0] if bools else None)
+                else:                # try_*<CONCURRENT, USE_FUTEX_WAKE>
+                    site.update(concurrent=bools[0] if len(bools) > 0 else True, wait=False,
+                                wake=bools[1] if len(bools) > 1 else True)
+            else:
+                if len(bools) >= 3:
+                    site.update(concurrent=bools[0], wait=bools[1], wake=bools[2])
+                elif len(ev.get("args", [])) == 3:   # compensating push_n/pop_n(cb, rcb, n): spins, never wakes
+                    site.update(concurrent=True, wait=False, wake=False)
+                else:                # defaulted flags
+                    site.update(concurrent=True, wait=True, wake=True)
+            out.append(site)
+    return out
+
+
+def check_queue_pairing(ctx, rule, sites, single_consumer_ok=None, single_producer_ok=None):
+    """documented pairing precondition: a side that sleeps on the futex must be woken by the other side"""
+    by_field = {}
+    for s in sites:
+        by_field.setdefault(s["field"], []).append(s)
+    for field, ss in sorted(by_field.items()):
+        pushes = [s for s in ss if s["side"] == "push"]
+        pops = [s for s in ss if s["side"] == "pop"]
+        pop_sleeps = [s for s in pops if s["wait"]]
+        push_sleeps = [s for s in pushes if s["wait"]]
+        for s in pushes:
+            ok = s["wake"] or not pop_sleeps
+            ctx.ob(rule + "a", "%s: %s@%s" % (field, short(s["fn"]), s["line"]), ok,
+                   "%s:%s" % (s["fn"].file, s["line"]),
+                   "push on queue '%s' does not wake (USE_FUTEX_WAKE=false) although a consumer sleeps on the futex "
+                   "(%s): the consumer is never woken" % (field, ", ".join("%s:%s" % (short(p["fn"]), p["line"]) for p in pop_sleeps[:2])),
+                   site="%s@%s" % (field, s["fn"].name))
+        for s in pops:
+            ok = s["wake"] or not push_sleeps
+            ctx.ob(rule + "b", "%s: %s@%s" % (field, short(s["fn"]), s["line"]), ok,
+                   "%s:%s" % (s["fn"].file, s["line"]),
+                   "pop on queue '%s' does not wake (USE_FUTEX_WAKE=false) although a producer sleeps on the futex when "
+                   "the queue is full (%s)" % (field, ", ".join("%s:%s" % (short(p["fn"]), p["line"]) for p in push_sleeps[:2])),
+                   site="%s@%s" % (field, s["fn"].name))
+        nc_pop = [s for s in pops if s["concurrent"] is False]
+        nc_push = [s for s in pushes if s["concurrent"] is False]
+        if nc_pop:
+            fns = set(s["fn"].key for s in pops)
+            ok = len(fns) == 1 or (single_consumer_ok is not None and single_consumer_ok(field, pops))
+            ctx.ob(rule + "c", "%s: non-concurrent pop" % field, ok, "%s:%s" % (nc_pop[0]["fn"].file, nc_pop[0]["line"]),
+                   "queue '%s' is popped with CONCURRENT=false but from more than one function (%s): two consumers may "
+                   "take the same ticket" % (field, sorted(short(s["fn"]) for s in pops)[:4]), site="%s@pop" % field)
+        if nc_push:
+            fns = set(s["fn"].key for s in pushes)
+            ok = len(fns) == 1 or (single_producer_ok is not None and single_producer_ok(field, pushes))
+            ctx.ob(rule + "d", "%s: non-concurrent push" % field, ok, "%s:%s" % (nc_push[0]["fn"].file, nc_push[0]["line"]),
+                   "queue '%s' is pushed with CONCURRENT=false from more than one function" % field, site="%s@push" % field)
+    return by_field
